@@ -60,7 +60,7 @@ pub fn run(args: &Args, sink: &mut Sink, rng: &mut Rng) {
     let mut s_ser = Stream::new("ser", REQ, "chk_ser", "treemap * list (bitmap * list N)", "list N * N");
     s_ser.shard = 200;
     let mut s_de = Stream::new("de", REQ, "chk_de", "list N * list (bitmap * list N)", "outcome treemap");
-    s_de.shard = 600;
+    s_de.shard = 300;
     for sp in &specs {
         let t = build(sp);
         let mut bytes = vec![];
